@@ -3,8 +3,8 @@ PYOPT = 2  # every second shard also runs in an interpreter started with -O
 LEVEL = "exploration"
 RULE = (
     "histories of 20-200 facade commands mixing WRITE(10/12/16), WRITE SAME(10/16 incl. NDOB), READ(10/12/16), SYNCHRONIZE "
-    "CACHE(10/16), READ CAPACITY(10/16), INQUIRY; LBAs from a few hot blocks plus the neighbourhoods of 2^16, 2^31, 2^32, 2^40 "
-    "and the last LBA; block sizes {512,520,4096}; transfer lengths 0..64; all protect/DPO/FUA/RARC/group/anchor/unmap values; "
+    "CACHE(10/16), READ CAPACITY(10/16), INQUIRY; LBAs from a few hot blocks, the neighbourhoods of 2^16, 2^31, 2^32, 2^40 "
+    "and the last LBA, uniform-in-magnitude draws and the integer literals of the library's source; block sizes {512,520,4096}; transfer lengths 0..300; all protect/DPO/FUA/RARC/group/anchor/unmap values; "
     "capacities 2^20 and 2^41 blocks.  Each history runs over init_device('/dev/...') with fake sgio and over "
     "init_device('iscsi://...') with fake iscsi against a target that decodes CDBs with the reference only and validates "
     "strictly.  Oracle: the driver's shadow disk (updated from the caller's intent; every written block carries operation id "
@@ -24,6 +24,9 @@ def shards(tier, seed):
     out += [{"id": "prepared", "kind": "prepared", "n": 12 if tier == "quick" else 400}]
     out += [{"id": "congruent%d" % i, "kind": "congruent", "n": 6 if tier == "quick" else 200} for i in range(2)]
     return out
+
+
+from vmon import gen  # noqa: E402
 
 
 def lba_pool(nblocks, ten):
@@ -48,8 +51,20 @@ def gen_history(rng):
             lim = min(nblocks, 1 << 32) if ten else nblocks
             lba = min(max(0, hot + rng.randint(-3, 3)), lim - 1)
         else:
-            lba = rng.choice(lba_pool(nblocks, ten))
+            lim = min(nblocks, 1 << 32) if ten else nblocks
+            sv = gen.source_value(rng, 64, hi=lim - 1)  # LBAs the library's code mentions
+            if sv is not None:
+                lba = sv
+            elif rng.random() < 0.3:
+                lba = min(rng.getrandbits(rng.randint(1, 41)), lim - 1)  # uniform in magnitude: every interior range of the address space
+            else:
+                lba = rng.choice(lba_pool(nblocks, ten))
         tl = rng.choice([0, 1, 1, 2, 3, 8, 17, 64])
+        sv = gen.source_value(rng, 16, hi=300)
+        if sv is not None:
+            tl = sv
+        elif rng.random() < 0.1:
+            tl = rng.randint(0, 300)
         tl = max(0, min(tl, nblocks - lba))
         if kind == "writesame":
             if rng.random() < 0.12:
